@@ -163,3 +163,75 @@ PROPS["C13"] = dict(
     assumptions=["'is the group law' for dalek's arithmetic is conformance, not proof"],
     gen_items=[],
 )
+
+_CRYPTO_NOTE = ("Trusted: Lean kernel (+ Mathlib's AddCommGroup/Module for the abstract group); the theorems hold for EVERY lawful instance of CryptoOps "
+                "(Proofs/Group.lean `Lawful`: add/sub/smul are the operations of an additive commutative group, l•G = 0, 8 < l, enc injective, dec∘enc = some; "
+                "a concrete lawful instance Z/(8l) is exhibited). That curve25519-dalek's Ed25519 arithmetic is such a group is a mathematical fact taken as "
+                "hypothesis (Mathlib has no Edwards group law); dalek and tiny-keccak are modelled by Ref/Ed25519.lean and Ref/Keccak.lean and tied "
+                "differentially. Model/Rust correspondence of the control flow is differential; salts, cofactor and H are regenerated from source.")
+
+PROPS["C10"] = dict(
+    level="proof",
+    technique="Lean 4 theorems in an arbitrary lawful abelian group: the model of KeyGenerator::from_key/from_random equals 8•(a•B) for every point incl. torsion, sender/receiver commute, one-time keys recognised; counterexample for the pinned scalar-times-8 formula; torsion-augmented differential check vs the Lean reference curve",
+    level_text="C10_derivation: derive a B = 8•(a•B) for every point B (torsion component removed: C10_derivation_torsion); C10_sender_receiver; C10_onetime_recognised / C10_view_tag_recognised (the by-the-book sender's key and tag are what the receiver computes); C10_scalar8_agrees_on_torsion_free + C10_scalar8_counterexample document the defect repaired by the fix commit (the pinned formula (8a mod l)•B differs on a point of order 8). Every test key is used 9 times (as is and plus each of the 8 small-order points) against model, by-the-book spec on the reference curve, and dalek's mul_by_cofactor.",
+    level_note=_CRYPTO_NOTE,
+    design_ref="DESIGN.md §6 C10, §7 item 1",
+    rule="300 (quick) / 2000 (thorough) keys x 9 torsion variants, scalars random/0/1/l-1, one-time keys with torsion on R, V, S; malformed operands.",
+    assumptions=["dalek's point arithmetic is the Ed25519 group law (conformance against Ref/Ed25519.lean)"],
+    gen_items=["mulFactor"],
+)
+
+PROPS["C09"] = dict(
+    level="proof",
+    technique="Lean 4 theorems in an arbitrary lawful group: recovered secret = Hs(8vR ‖ n) + s' and its public key is the sender-built one-time key, for primary and subaddress destinations; differential check vs reference curve and an independent dalek sender",
+    level_text="C09_recover_value (recover = (Hs(enc(8•(v•R)) ‖ varint n) + s') mod l with s' the subaddress spend secret), C09_recover_matches_scan (for every R, recover•G is the key the scanner matched), C09_recover_pub (for honest senders, recover•G = the by-the-book one-time key, primary and subaddress), C09_recover_reduced. Wallets x positions (127/128/16383/16384/2^21 boundaries) x indices with zero components, also with torsion on the tx key.",
+    level_note=_CRYPTO_NOTE,
+    design_ref="DESIGN.md §6 C09",
+    rule="10 (quick) / 100 (thorough) wallets x 10 positions x 5 indices, every 5th case with a torsioned tx key.",
+    assumptions=["dalek's arithmetic is the group law (conformance)"],
+    gen_items=["mulFactor", "subaddrSalt"],
+)
+
+PROPS["C11"] = dict(
+    level="proof",
+    technique="Lean 4 theorems in an arbitrary lawful group for the public- and secret-side subaddress derivations, the hashed preimage and its injectivity in (i,j), the address; distinctness reduced to a named hash assumption; stratified differential check on 3 networks",
+    level_text="C11_keys_are_monero / C11_keys_are_spec (S' = S + Hs(\"SubAddr\\0\"‖v‖i‖j)•G, V' = v•S', and the secret counterparts), C11_public_secret_agree (public keys = G times secret keys), C11_zero_index, C11_single_zero_component_is_not_zero, C11_preimage (message layout, 48 bytes, injective in (i,j) below 2^32), C11_address (SubAddress-type address of those keys on the requested network, text = C12 spec text). C11_distinct_keys_partial: distinct indices give distinct keys PROVIDED Hs does not collide on the two (distinct) preimages and G has order exactly l - the cryptographic assumption no proof can discharge.",
+    level_note=_CRYPTO_NOTE + " Observation (DESIGN.md §8): at index (0,0) get_subaddress prints a SubAddress-typed address of the primary keys, as the property's letter says; Monero's wallet prints the Standard address there.",
+    design_ref="DESIGN.md §6 C11",
+    rule="20 (quick) / 120 (thorough) wallets x 49 stratified indices (0, 1, 0xff, 0x100, 0xffff, 0x10000, u32::MAX per side) x networks (all four in Rust, rotating through Lean).",
+    assumptions=["collision-freeness of Hs on the 48-byte preimages (for distinctness only)"],
+    gen_items=["subaddrSalt", "network."],
+)
+
+PROPS["C07"] = dict(
+    level="proof",
+    technique="Lean 4 theorems about a model of check_outputs_with (iterator pipeline, SubKeyChecker table as insert list, view tags, additional keys) in an arbitrary lawful group: exact characterisation of the reported set (sound + complete), sender outputs recognised, position enters only through its varint; scenario-based three-way check with an independent sender",
+    level_text="C07_sound / C07_complete / C07_reported_iff: position i is reported, with key K and index idx, iff K is the main key or (when the main key addresses nothing there) the additional key at position i, the view tag matches when present, and P_i = Hs(enc(8•(v•K)) ‖ varint i)•G + subSpendPub idx for an in-range idx (last-insert-wins on equal spend keys); C07_sender_recognised / C07_sender_reported: outputs built by the by-the-book sender for the primary address or an in-range subaddress (main-key or per-output key, tagged or not, any position, tx key with added 8-torsion) are reported; C07_position_encoding; C07_errors; C07_apis_agree. Scenarios (wallet, ranges, per-output assignment primary/subaddress in or out of range/foreign/garbage, derivation, tag right/wrong/absent, version, RingCT type, positions beyond 128 and 16384) are built independently by the harness (dalek sender) and by the Lean spec; library scan = model = expected set.",
+    level_note=_CRYPTO_NOTE + " That a foreign key does not satisfy the equation by accident is cryptographic (sampled, not proved); the theorem is an exact characterisation so it needs no such assumption.",
+    design_ref="DESIGN.md §6 C07",
+    rule="~40 (quick) / ~400 (thorough) scenarios; positions cross 128 and 16384 via filler outputs around real ones; missing/duplicate tx key fields, short additional-key lists, wrong tags/positions, out-of-range subaddresses, torsioned keys.",
+    assumptions=["dalek's arithmetic is the group law (conformance)"],
+    gen_items=["viewTagSalt", "mulFactor", "subaddrSalt", "CAP"],
+)
+
+PROPS["C08"] = dict(
+    level="proof",
+    technique="Lean 4 theorems: legacy and compact ecdh decode invert the by-the-book Monero sender encode for every amount < 2^64, mask and shared secret; any reported opening opens the on-chain commitment (for arbitrary, incl. corrupted, fields); clear amounts; differential check with an independent dalek encoder",
+    level_text="C08_legacy_roundtrip / C08_compact_roundtrip / C08_sender_roundtrip: decoding the sender's encoding returns exactly (a, y) resp. (a, derived mask) and passes the commitment check; C08_opening_sound: for ARBITRARY ecdh/commitment bytes a reported opening (a', y', C') satisfies y'•G + a'•H = C' = the decoded on-chain commitment, otherwise the scan errs (no third case, via C07_errors); C08_clear_amounts (v1 / coinbase / Null: a > 0 ↦ a, 0 ↦ unknown). The legacy theorem holds for the code after the fix commit (the pinned tree hashed the unreduced digest).",
+    level_note=_CRYPTO_NOTE,
+    design_ref="DESIGN.md §6 C08, §7 item 2",
+    rule="(amount, mask, secret) triples x 2 encodings incl. 0, 2^64-1 and every power of two ±1; corrupted ecdh / commitments (bit flips, non-canonical encodings); v1 / coinbase clear amounts.",
+    assumptions=["2^64 <= l <= 2^256 and Keccak output >= 8 bytes (true for Ed25519 / Keccak-256)"],
+    gen_items=["amountSalt", "maskSalt", "pointH", "mulFactor"],
+)
+
+PROPS["C19"] = dict(
+    level="other",
+    technique="Lean 4 theorems fromJson (toJson x) = some x on a model of the serde data model as configured in /repo (shapes determined from real serde_json output) for every public type, amount helpers via C15 and address via C12 theorems; JSON text of the model compared with serde_json's on the same values, and deserialisers on reordered / malformed documents",
+    level_text="PARTIAL by nature: serde_derive's expansion and serde_json's printer/parser are trusted, not modelled. Proved on the model: C19_roundtrip_<T> for 26 types from Key/Hash/VarInt up to Transaction and Block (under explicit wf predicates), C19_amount_pico (every u64/i64), C19_amount_xmr (exact decimal string of C15, round-trips iff magnitude <= 2^63-1; C19_amount_xmr_refused above), option and sequence variants, C19_address_json / C19_invalid_address_refused (via C12). Decided by conformance: the model's compact JSON text equals serde_json::to_string on the same values (all RingCT types, both versions), read-back equality, and deserialisers agree on reordered, escaped and malformed documents.",
+    level_note="Trusted: serde_derive, serde_json, serde-big-array; Lean kernel for the model-level theorems; the feature gate is exercised because the harness always builds monero with `serde`. What the model cannot exhibit: a divergence between serde_json's printer and parser on trees the tests do not reach.",
+    design_ref="DESIGN.md §6 C19",
+    rule="values from the shared generators (transactions/blocks of all types), amounts on the u64/i64 boundary sets, addresses (3 networks x 3 types), Index, Hash; malformed / reordered JSON documents.",
+    assumptions=["serde_derive / serde_json conventions as observed on real output"],
+    gen_items=[],
+)
